@@ -41,10 +41,10 @@ def wire_len(frames) -> int:
 def ob(transport: str, hname: str, nchunks: int, cb: int, timeout: float) -> Obligation:
     frames = HISTORIES[hname]
     total = wire_len(frames)
-    params = ["cut: int"] + [f"k{i}: bool" for i in range(nchunks)]
+    params = ["cut: int"] + [f"k{i}: bool" for i in range(nchunks)] + (["dropped: bool"] if cb >= 0 else [])
     pres = [f"0 <= cut <= {total}"]
     body = (f"return connection_loss_ok({transport!r}, {frames!r}, cut, [{', '.join(f'k{i}' for i in range(nchunks))}], "
-            f"nchannels=2, cb_channel={cb})\n")
+            f"nchannels=2, cb_channel={cb}" + (", cb_dropped=dropped" if cb >= 0 else "") + ")\n")
     src = e1.make_module(PRELUDE, "h", ", ".join(params), pres, body)
     return Obligation(name=f"cut_{transport}_{hname}_cb{cb}_chunks{nchunks}", module_src=src, fn="h", timeout=timeout,
                       meta={"transport": transport, "history": hname, "wire_bytes": total, "callback_channel": cb})
@@ -83,7 +83,7 @@ def run(tier: str) -> Outcome:
         ],
         bounds=("frame histories of <=4 frames over 2 channels (DATA, CLOSE, LAST_MESSAGE, CLOSE_ERROR; 6 histories quick, 9 thorough), "
                 "the cut offset symbolic over every byte position of the stream (header, payload, frame boundary, end), the first 1 (thorough 2) "
-                "low-level reads symbolic (1 byte / all), a callback+endmarker channel on channel 0/1 or none, both Popen2IO and SocketIO"),
+                "low-level reads symbolic (1 byte / all), a callback+endmarker channel on channel 0/1 or none (its channel object kept or dropped: symbolic), both Popen2IO and SocketIO"),
         outside=[
             "several threads blocked in receive/waitclose while the loss happens (schedule-quantified part): not decided by this E1 check",
             "real SIGKILLs and kernel pipe/socket behaviour; Gateway.hasreceiver() (pool bookkeeping, see C09)",
